@@ -1,0 +1,51 @@
+//go:build verif
+
+// Machine-checked contracts for package jpeg (comment-only; read by /verif/bin/vcgo).
+// be16At/exifPrefixAt: /verif/specs/jpeg.spec (ITU-T T.81 B.1.1 segment syntax); isSigAt/le32At/...: /verif/specs/tiff.spec.
+// Everything in this package runs beneath ScanJPEG's recover frame (a run-time panic becomes the returned error), so
+// the C01 obligations here are only "no panic with a non-error value"; the contracts below carry C02 (termination,
+// progress) and C10 (segment framing).
+package jpeg
+
+//@ pool bufferPool *bufio.Reader
+
+// Data-structure invariant while scanning: the reader exists; after nextMarker reported a marker, jr.buf is the 64-byte
+// window at the marker and the next 64 bytes are buffered.
+//@ spec atMarker(jr) = jr.br != nil && len(jr.buf) == 64 && arr(jr.buf) == sid(jr.br) && off(jr.buf) == pos(jr.br) && pos(jr.br) + 64 <= lim(jr.br) && peeked(jr.br) >= 64
+
+//@ func (*jpegReader).discard
+//@   props C02 C10
+//@   requires jr.br != nil
+//@   modifies jr.discarded, stream(jr.br)
+//@   ensures [C10] i >= 0 ==> pos(jr.br) >= old(pos(jr.br)) && pos(jr.br) <= old(pos(jr.br)) + i && jr.discarded == old(jr.discarded) + uint32(pos(jr.br) - old(pos(jr.br)))
+//@   ensures [C10] err == nil && i >= 0 ==> pos(jr.br) == old(pos(jr.br)) + i
+//@   ensures [C02] i < 0 ==> pos(jr.br) == old(pos(jr.br)) && err != nil
+//@   ensures [C10] 0 <= i && i <= old(peeked(jr.br)) ==> err == nil
+
+// C10: a reported marker is a 0xFF byte at the current position, the marker code and big-endian length are those that
+// follow it, an SOI is open, and the absolute offset recorded for it is the number of bytes discarded so far.
+//@ func (*jpegReader).nextMarker
+//@   props C02 C10
+//@   requires jr.br != nil
+//@   modifies jr.buf, jr.err, jr.pos, jr.offset, jr.size, jr.marker, jr.discarded, stream(jr.br)
+//@   ensures [C10] r0 ==> atMarker(jr) && jr.err == nil && jr.pos > 0
+//@   ensures [C10] r0 ==> data(jr.br, pos(jr.br)) == 0xFF && uint8(jr.marker) == data(jr.br, pos(jr.br) + 1) && jr.size == be16At(jr.br, pos(jr.br) + 2) && jr.offset == jr.discarded
+//@   ensures [C10] pos(jr.br) >= old(pos(jr.br)) && jr.discarded == old(jr.discarded) + uint32(pos(jr.br) - old(pos(jr.br)))
+//@   ensures [C02] !r0 ==> jr.err != nil
+//@   loop 0 invariant jr.br != nil && pos(jr.br) >= old(pos(jr.br)) && jr.discarded == old(jr.discarded) + uint32(pos(jr.br) - old(pos(jr.br)))
+//@   loop 0 decreases ite(jr.err == nil, 1, 0), lim(jr.br) - pos(jr.br)
+
+// Handlers: on success the stream resumes exactly at the next marker: 2 marker bytes + the segment length further.
+//@ func (*jpegReader).ignoreMarker
+//@   props C02 C10
+//@   requires atMarker(jr)
+//@   modifies jr.err, jr.discarded, stream(jr.br)
+//@   ensures [C10] jr.err == nil ==> pos(jr.br) == old(pos(jr.br)) + 2 + int(jr.size)
+//@   ensures [C10] pos(jr.br) >= old(pos(jr.br)) && jr.discarded == old(jr.discarded) + uint32(pos(jr.br) - old(pos(jr.br)))
+
+//@ func (*jpegReader).readSOFMarker
+//@   props C02 C10
+//@   requires atMarker(jr)
+//@   modifies jr.err, jr.discarded, jr.sofHeader, stream(jr.br)
+//@   ensures [C10] jr.err == nil ==> pos(jr.br) == old(pos(jr.br)) + 2 + int(jr.size)
+//@   ensures [C10] pos(jr.br) >= old(pos(jr.br)) && jr.discarded == old(jr.discarded) + uint32(pos(jr.br) - old(pos(jr.br)))
